@@ -202,6 +202,17 @@ func (g *Graph) pruneNil() {
 		return v, (op == token.EQL) == e.Sense, true
 	}
 	p.Edge = func(e *Edge, in uint64) uint64 {
+		// errors.Is(v, Sentinel) holds: v is not nil (errors.Is(nil, t) is true only for a nil t; the
+		// package-level error variables compared against are never nil – DESIGN §15)
+		if e.Cond != nil && e.Tag == nil && e.Sense {
+			if call, ok := ast.Unparen(e.Cond).(*ast.CallExpr); ok && len(call.Args) == 2 && IsPkgFunc(info, call, "errors", "Is") {
+				if t, ok := ObjOf(info, call.Args[1]).(*types.Var); ok && t.Pkg() != nil && t.Parent() == t.Pkg().Scope() {
+					if v := tracked(call.Args[0]); v != nil {
+						in = in&^isNilBit(v) | nonNilBit(v)
+					}
+				}
+			}
+		}
 		if v, assertsNil, ok := test(e); ok {
 			if assertsNil {
 				in = in&^nonNilBit(v) | isNilBit(v)
